@@ -60,7 +60,7 @@ def run(a):
                      "(random layouts up to 12 regions, splits at chosen PD loads, regionsPerTask 1..4|128, workers 1..8, optional failing handler call), "
                      "del = REAL DeleteRangeTask on mocktikv data vs map reference, gc = REAL tikv.ResolveLocksForRange / GCResolveLockPhase over mocktikv "
                      "(populations of committed/rolled-back/pending/pessimistic transactions, scan limit 1..5, splits after chosen scans) with scan-trace "
-                     "correspondence and a store-level audit, vis = snapshot Get/BatchGet/Iter below/at/above the cached txn safe point; "
+                     "correspondence and a store-level audit (incl. that a batched resolve acknowledged by the client was applied to every lock it named), vis = snapshot Get/BatchGet/Iter below/at/above the cached txn safe point; "
                      "correspondence = canonical output equal to the Lean model, property = oracle evaluated by each side on its own output; distinct = distinct op lines")
     c.assumptions = [
         "gc shim/phase modes run over an RPC wrapper that applies ScanLock StartKey/EndKey/Limit to the mock's answer and forwards batched "
